@@ -17,8 +17,8 @@ def _pref(coef, exp, pv):
         return Prefixed(number=Decimal(coef).scaleb(exp), prefix=bypow[pv])
 
 
-def _rt(top):
-    pkg = h.to_proto(top)
+def _rt(top, domain=None):
+    pkg = h.to_proto(top, domain=domain)
     with env.notrace():
         env.COUNTS["reached"] += 1
         ok, why = roundtrip(pkg)
@@ -119,7 +119,7 @@ def slices_roundtrip(w, bot, top, shape):
          tiers={"quick": {"timeout": 150, "parts": [("lo", "st <= 6"), ("hi", "st >= 7")]},
                 "thorough": {"timeout": 900, "parts": parts_over("st", range(14))}},
          sample=(4, 1, 2, 2, 1, True),
-         bounds="external module headers: all 14 spice types x port directions x widths 1..2 x port order",
+         bounds="external module headers: all 14 spice types x port directions x widths 1..2 x port order; next to a domain-less external module; package exported with or without a domain of its own",
          generalises="selectors only (finite product)", outside="")
 def extmodule_roundtrip(st, d0, d1, w0, w1, swap):
     env.reset_all()
@@ -142,4 +142,7 @@ def _ext_concrete(st, d0, d1, w0, w1, swap):
     a = m.add(h.Signal(name="a", width=w0))
     b = m.add(h.Signal(name="b", width=w1))
     m.u = E({})(p0=a, p1=b)
-    return _rt(m)
+    # a second external module WITHOUT a domain of its own; and, when `swap`, a package exported under a domain
+    F = h.ExternalModule(name="F", port_list=[h.Port(name="q", width=w0)], paramtype=dict)
+    m.v = F({})(q=a)
+    return _rt(m, domain="mylib" if swap else None)
